@@ -29,7 +29,7 @@ package vgirpc
 //
 //@ func (*HttpServer).readHTTPBody
 //@   property C18
-//@   requires h != nil && r != nil
+//@   # (receiver and request are non-nil: dereferences are partial-correctness assumptions)
 //@   at call io.LimitReader assert [limit] limit > 0 && limit == (requestCapApplied ? h.maxRequestBytes : h.maxBodySize)
 //@   at call io.LimitReader assert [applied] requestCapApplied ==> h.maxRequestBytes > 0 && (h.maxBodySize <= 0 || h.maxRequestBytes <= h.maxBodySize)
 //@   at call io.LimitReader assert [readatmost] arg1 == min(limit + 1, maxI64())
